@@ -283,3 +283,49 @@ for _algo in ("maxsum", "amaxsum"):
         budget=dict(quick=dict(max_paths=50, timeout_s=120), thorough=dict(max_paths=50, timeout_s=600)),
         desc="real %s computations on the real factor graph, damping 0 / noise 0, run to quiescence: selected assignment == unique optimum" % _algo,
     )
+
+
+# ---------------------------------------------------------------- stability cut-off
+
+def h_approx_match(env):
+    """approx_match(costs, prev, coef): the cut-off may only declare two cost tables 'the same' when every
+    entry is equal or within the relative tolerance; a table that differs by more (including an exact sign
+    flip, where the relative difference is unbounded) must be sent again, otherwise exactness on trees is lost"""
+    from pydcop.algorithms import maxsum as M
+    p = env.params
+    dom = p["domain"]
+    coef = p.get("coef", 0.1)
+    c = {d: env.real("c[%s]" % d) for d in dom}
+    prevk = env.choice("prev", ["none", "some"])
+    prev = None if prevk == "none" else {d: env.real("p[%s]" % d) for d in dom}
+    r = env.call(M.approx_match, c, prev, coef)
+    if isinstance(r, Raised):
+        env.prove("approx_match.no-raise", False, detail=lambda: r.tb)
+        return
+    env.cover("post")
+    if prev is None:
+        env.prove("approx_match.nothing-matches-when-no-previous-message", r is False or r == False, detail=lambda: r)  # noqa
+        return
+    from pvc.sym import ite
+    conds = []
+    for d in dom:
+        s_ = prev[d] + c[d]
+        dl = prev[d] - c[d]
+        adl = ite(lt(dl, 0), -dl, dl)
+        as_ = ite(lt(s_, 0), -s_, s_)
+        conds.append(Or(eq(prev[d], c[d]), And(Not(eq(s_, 0)), lt(2 * adl, coef * as_))))
+    exp = And(*conds)
+    got = r if isinstance(r, bool) else r
+    env.prove("approx_match.true-exactly-when-every-entry-is-equal-or-within-the-relative-tolerance",
+              exp == got if isinstance(exp, bool) and isinstance(got, bool) else _iff(exp, got), detail=lambda: dict(costs=c, prev=prev, returned=r))
+
+
+def _iff(a, b):
+    from pvc.sym import Iff
+    return Iff(a, b)
+
+
+Contract("maxsum.approx_match", ["C05"], ["pydcop.algorithms.maxsum:approx_match"], h_approx_match,
+         lambda tier: [dict(domain=[10, 0]), dict(domain=[10, 0, 5], coef=0.1)] + ([dict(domain=[10, 0], coef=0.5)] if tier == "thorough" else []),
+         mode="B", must_cover=["post"], budget=dict(sample_max_mag=2 ** 20),
+         desc="the stability cut-off declares a match exactly when all entries are equal or relatively close (never on an exact sign flip)")
